@@ -2,7 +2,7 @@
 (* Complete grids for Candle.tla; rows are printed for replay on Candle, the 5-tuple and [ValueType; 5]. *)
 EXTENDS Candle, TLC, Json, Sequences
 
-CONSTANT Mode        \* "validate" | "tr" | "add"
+CONSTANT Mode        \* "validate" | "tr" | "add" | "seq"
 VARIABLES x, y, z
 vars == <<x, y, z>>
 
@@ -11,7 +11,13 @@ VSeq == <<NAN, NINF, -1, 0, 1, 2, 3, PINF>>
 Small == {1, 2}
 Cands == [o : {1}, h : Small, l : Small, c : Small, v : {1, 2, NAN}] \cup [o : {2}, h : {2}, l : {1}, c : {1}, v : {1, NAN}]
 
-Init == CASE Mode = "validate" -> x \in V /\ y \in V /\ z \in V                 \* (open, high, low); close and volume inside
+\* plain value sequences (Sequence<ValueType>::validate): valid iff every item is finite -- HUGE stands for a finite value near
+\* the top of the range (sums of two of them overflow), so finiteness of the ITEMS is what counts
+HUGE == 7000
+VH == V \cup {HUGE, -HUGE}
+Finite(v) == v \notin {NAN, NINF, PINF}
+Init == CASE Mode = "seq" -> x \in VH /\ y \in VH /\ z \in VH
+          [] Mode = "validate" -> x \in V /\ y \in V /\ z \in V                 \* (open, high, low); close and volume inside
           [] Mode = "tr"       -> x \in 0..8 /\ y \in 0..8 /\ z \in 0..8        \* (high, low, prev close)
           [] Mode = "add"      -> x \in Cands /\ y \in Cands /\ z \in Cands
 Next == UNCHANGED vars
@@ -22,7 +28,10 @@ ValidateInv == Mode = "validate" => \A c \in V, v \in V : ValidateCoded(Cn(c, v)
 TRInv == (Mode = "tr" /\ x >= y) => TRCoded(x, y, z) = TRText(x, y, z)
 AddInv == Mode = "add" => CAdd(CAdd(x, y), z) = CAdd(x, CAdd(y, z))
 
-Emit == CASE Mode = "validate" ->
+Emit == CASE Mode = "seq" -> PrintT(<<"SEQ", ToJson([xs |-> <<x, y, z>>,
+                                                     valid |-> [n \in 1..3 |-> IF \A i \in 1..n : Finite(<<x, y, z>>[i]) THEN 1 ELSE 0],
+                                                     valid_rev |-> [n \in 1..3 |-> IF \A i \in 1..n : Finite(<<z, y, x>>[i]) THEN 1 ELSE 0]])>>)
+          [] Mode = "validate" ->
                PrintT(<<"ROW", ToJson([o |-> x, h |-> y, l |-> z,
                                        valid |-> [i \in 1..8 |-> [j \in 1..8 |-> IF ValidateCoded(Cn(VSeq[i], VSeq[j])) THEN 1 ELSE 0]]])>>)
           [] Mode = "tr" -> PrintT(<<"TR", ToJson([h |-> x, l |-> y, pc |-> z, tr |-> TRCoded(x, y, z)])>>)
